@@ -81,6 +81,23 @@ def run_c05(tier, seed, replay=None):
         body = [["dfs", ["lib", "member", "q", a], ["lib", "member", "r", b]] if rnd.random() < 0.5 else
                 ["dfs", ["cond", ["lib", "member", "q", a], ["eq", "q", 0]], ["cond", ["eq", "r", 1], ["lib", "member", "r", b], ["eq", "r", 2]]]]
         cases.append(mk_case([], ["q", "r"], body))
+    # the same conjunctions where they are not the direct body of dfs { }: a clause of a nested cond, the body of
+    # a closure relation, a match arm, under fresh; the second goal needs several steps per answer
+    pairs = ["def", "pairs", ["params", "x", "y", "l", "m"], "closure", ["conj", ["lib", "member", "x", "l"], ["lib", "member", "y", "m"]]]
+    for _ in range(n // 5):
+        a = ["list"] + rnd.sample([1, 2, 3, 4, 5], rnd.randint(2, 3))
+        b = ["list"] + rnd.sample([6, 7, 8, 9], rnd.randint(2, 3))
+        g1 = rnd.choice([["lib", "member", "q", a], ["cond"] + [["eq", "q", v] for v in a[1:]]])
+        g2 = rnd.choice([["lib", "member", "r", b], ["cond"] + [["fresh", ["z"], ["eq", "z", v], ["eq", "r", "z"]] for v in b[1:]],
+                         ["fresh", ["z"], ["lib", "member", "z", b], ["eq", "r", "z"]]])
+        shape = rnd.choice([
+            ["dfs", ["cond", ["conj", g1, g2]]],
+            ["dfs", ["cond", ["conj", g1, g2], ["conj", ["eq", "q", 0], g2]]],
+            ["dfs", ["call", "pairs", "q", "r", a, b]],
+            ["dfs", ["fresh", ["w"], ["eq", "w", 1], ["cond", ["conj", g1, g2, ["eq", "w", 1]]]]],
+            ["dfs", ["match", a, ["arm", ["pats", ["ilist", "h", "_"]], g1, g2]]],
+        ])
+        cases.append(mk_case([pairs], ["q", "r"], [shape]))
     return pcheck.run_check("C05", tier, seed, cases, "exact", oracle_c05, cone=CONE, replay=replay,
         rule="random programs over eq/neq/conj/fresh/cond/member/append/closure wrapped in dfs{}, plus conjunctions of multi-answer goals; "
              "compared position by position with the Python list-monad reference (gen/refsem.py) and step-exactly with the model; "
@@ -299,6 +316,21 @@ def run_c09(tier, seed, replay=None):
                         ["dfs", ["cond", ["call", "ones", "q"], ["eq", "q", 5]], ["neq", "q", ["list", 1]]],
                         ["dfs", ["fresh", ["l"], ["lib", "append", "l", ["list", rnd.randint(1, 3)], "q"]], ["eq", "r", 0]]])
         cases.append(mk_case([ones], ["q", "r"], [k], maxans=rnd.randint(2, 6), budget=1500, must_answer=True))
+    # several stored disequalities whose re-check order is the store's iteration order: the answers must not depend on it
+    hs = []
+    for _ in range(n // 10):
+        a, b, c3 = rnd.sample([1, 2, 3, 4], 3)
+        body = rnd.choice([
+            [["neq", ["list", "q", "r"], ["list", a, b]], ["eq", "q", "r"], ["cond", ["eq", "r", a], ["eq", "r", b], ["eq", "r", c3]]],
+            [["neq", ["list", "q", "r"], ["list", a, b]], ["neq", ["list", "r", "t"], ["list", b, c3]], ["eq", "q", "t"],
+             ["cond", ["eq", "r", b], ["eq", "r", a]], ["cond", ["eq", "q", a], ["eq", "q", c3]]],
+            [["neq", ["list", "q", "r", "t"], ["list", a, b, c3]], ["eq", "q", "t"], ["eq", "r", "t"], ["lib", "member", "t", ["list", a, b, c3]]],
+            [["neq", "q", a], ["neq", "q", b], ["neq", ["list", "q", "r"], ["list", c3, c3]], ["eq", "r", "q"], ["lib", "member", "q", ["list", a, b, c3, 5]]],
+        ])
+        hs.append(mk_case([], ["q", "r", "t"], body, maxans=10, budget=3000))
+    cases = hs + cases            # among the first cases: they are also re-run in fresh processes
+    for c in hs * 3:
+        cases.append(dict(c))
     for c in list(cases[: n // 2]):
         cases.append(dict(c))
 
@@ -383,6 +415,25 @@ def run_c10(tier, seed, replay=None):
         cases.append(mk_case([], ["q", "r"], prefix + [["cond", ["conj"] + A, ["conj"] + B]], parts=(k + 1, k + 2), mode="bag"))
         cases.append(mk_case([], ["q", "r"], prefix + A, mode="bag"))
         cases.append(mk_case([], ["q", "r"], prefix + B, mode="bag"))
+    # a constraint object that is rewritten when it runs (distinctfd records the values seen so far): all but one
+    # of its variables are decided in the shared prefix, both branches decide the last one, possibly to the same value
+    for _ in range(n // 3):
+        k3 = rnd.random() < 0.5
+        vs = ["q", "r", "t"] if k3 else ["q", "r"]
+        dom = ["dom", ["list"] + vs, ["i", 0, 4]]
+        decided = [["eq", v, i + 1] for i, v in enumerate(vs[:-1])]
+        last = vs[-1]
+        free = [x for x in range(0, 5) if x not in range(1, len(vs))]
+        va = rnd.choice(free)
+        vb = rnd.choice([va, va, rnd.choice(free)])
+        A = [rnd.choice([["eq", last, va], ["conj", ["rel", "ltefd", va, last], ["rel", "ltefd", last, va]]])]
+        B = [rnd.choice([["eq", last, vb], ["conj", ["rel", "ltefd", vb, last], ["rel", "ltefd", last, vb]]])]
+        prefix = rnd.choice([[dom, ["rel", "distinctfd", ["list"] + vs]] + decided, [dom] + decided + [["rel", "distinctfd", ["list"] + vs]],
+                             [["rel", "distinctfd", ["list"] + vs], dom] + decided])
+        k = len(cases)
+        cases.append(mk_case([], ["q", "r", "t"][:len(vs)], prefix + [["cond", ["conj"] + A, ["conj"] + B]], parts=(k + 1, k + 2), mode="bag"))
+        cases.append(mk_case([], ["q", "r", "t"][:len(vs)], prefix + A, mode="bag"))
+        cases.append(mk_case([], ["q", "r", "t"][:len(vs)], prefix + B, mode="bag"))
     return pcheck.run_check("C10", tier, seed, cases, "exact", oracle_c10, cone=CONE, replay=replay,
         rule="triples (prefix; conde{A,B}; suffix), (prefix; A; suffix), (prefix; B; suffix) over eq/neq/fresh/conde/member goals and over "
              "shared FD state (domains, distinctfd, ltefd/plusfd) updated in the branches; the combined answer multiset must be the union of "
